@@ -1569,6 +1569,7 @@ def emit(A, out_path, sidecar_path=None):
             funcs={f.qual: [os.path.relpath(f.mod.path, A.repo),
                             min([f.node.lineno] + [d.lineno for d in f.node.decorator_list]),
                             getattr(f.node, "end_lineno", f.node.lineno), f.fid] for f in A.funcs.values()},
+            tests={str(tid): key for key, (tid, _) in A.tests.items()},
             stats=dict(A.stats, nodes=len(A.nodes), edges=len(edges), effs=len(effs),
                        functions=len(A.funcs), classes=len(A.classes)),
         )
